@@ -282,6 +282,24 @@ pub fn check_cond(e: &E) -> Check {
             verdict(what, (1..=6).map(|k| keys.contains(&k)).collect())?;
         }
     }
+    // the same condition as outer filter of a left join whose ON clause
+    // matches T rows 4..6 only: the filter sees joined rows, never a
+    // null-padded row that the join itself did not produce
+    if e.has_column() && want.iter().all(|w| w.is_some()) {
+        let q = qualify(e);
+        let on = msi::Expr::col("T.k").gt(msi::Expr::integer(3));
+        let sel = Select::table("P").left_join(Select::table("T"), on).with(build(&q));
+        let got: Vec<Option<i32>> = crate::engine::catch(|| pkg.select_rows(sel).map(|rows| rows.map(|r| r[31].as_int()).collect::<Vec<Option<i32>>>()))
+            .map_err(|(loc, msg)| Fail::new(format!("{P} panic at={loc}"), format!("left-join-filter with condition {} panicked: {msg}", q.show())))?
+            .map_err(|err| io("left-join-filter", err))?;
+        let expect: Vec<Option<i32>> = (4..=6).filter(|k| want[*k as usize - 1] == Some(true)).map(Some).collect();
+        if got != expect {
+            return Err(Fail::new(
+                format!("{P} cond-wrong call=left-join-filter op={}", root_name(e)),
+                format!("(P LEFT JOIN T ON T.k > 3) WHERE {}: rows with T.k = {got:?}, expected {expect:?}", q.show()),
+            ));
+        }
+    }
     // update: mark matching rows
     crate::engine::catch(|| pkg.update_rows(Update::table("T").set("m", Value::Int(7)).with(build(e))))
         .map_err(|(loc, msg)| Fail::new(format!("{P} panic at={loc}"), format!("update WHERE {} panicked: {msg}", e.show())))?
